@@ -169,6 +169,7 @@ class Gen:
             if self.p.get("distinct_routes"): keys = list(dict.fromkeys(keys))
             for key in keys:
                 n = self.fresh("s"); L.append(f"route {n} {rn} {key}"); self.add_stream(n, self.t(s))
+                self.ident[n] = f"route:{rn}:{key}"      # the same key of one router is the same stream object
         elif kind in ("sloop", "cloop"):
             return self.gen_loop(kind)
         else:
@@ -411,12 +412,18 @@ class Gen:
         made = 0
         for _ in range(nd * 6):
             if made >= nd: break
-            if self.gen_def(): made += 1
+            if self.gen_def():
+                made += 1
+                if p.get("toplevel_mix") and r.random() < 0.5: self.gen_between()
         if not (self.ssinks or self.csinks):
             n = self.fresh("s"); self.lines.insert(0, f"ssink {n}"); self.add_stream(n); self.ssinks.append(n)
         for _ in range(r.randint(*p["n_listen"])): self.gen_listen()
         for _ in range(r.randint(*p["n_txn"])):
-            self.gen_txn()
+            if p.get("updlogs"):
+                # L-sched-api: the scheduler's update log of exactly this transaction
+                self.lines.append("updclear"); self.gen_txn(); self.lines.append("updlog")
+            else:
+                self.gen_txn()
             self.gen_between()
         if p.get("periodic"):
             # the same transaction pattern repeated; node count recorded at the same phase of every period
